@@ -87,7 +87,30 @@ def boundary_tie(pos):
     return False
 
 
-def geometry(rng, nc, kind=None):
+def geometry(rng, nc, kind=None, ties=False):
+    """ties=False: no distance tie between the 12th and 13th nearest channel of any channel (the determined regime);
+    ties=True (stage 5): any geometry with pairwise distinct positions -- regular linear probes ('line'), unshuffled and
+    shuffled two-column grids, staggered two-column probes ('stag2'), coarse random lattices (many equal distances)."""
+    if ties:
+        kind = kind or rng.choice(['line', 'line', 'grid', 'gridu', 'stag2', 'lattice'])
+        if kind == 'line':                  # one column, regular pitch: every interior channel has tied neighbours
+            pos = [[0, 20 * i] for i in range(nc)]
+            if rng.random() < 0.3:
+                rng.shuffle(pos)
+        elif kind == 'gridu':               # two columns, channel order = probe order
+            pos = [[16 * (i % 2), 20 * (i // 2)] for i in range(nc)]
+        elif kind == 'grid':                # two columns, shuffled channel order
+            pos = [[16 * (i % 2), 20 * (i // 2)] for i in range(nc)]
+            rng.shuffle(pos)
+        elif kind == 'stag2':               # Neuropixels-like staggered columns
+            pos = [[16 * (i % 2) + 8 * ((i // 2) % 2), 20 * (i // 2)] for i in range(nc)]
+        elif kind == 'lattice':             # random cells of a coarse lattice (many equal distances)
+            cells = rng.sample([(x, y) for x in range(0, 4) for y in range(0, 8)], nc)
+            pos = [[10 * x, 10 * y] for x, y in cells]
+        else:
+            raise ValueError(kind)
+        assert len(set(map(tuple, pos))) == nc
+        return pos
     kind = kind or rng.choice(['grid', 'grid', 'line2', 'random', 'stagger'])
     for _ in range(200):
         if kind == 'line2':                 # distances from any channel are pairwise distinct
@@ -167,7 +190,8 @@ def templates(rng, nt, ns, nc, amp=20, style=None):
 
 def gen_input(rng, **o):
     nt = o.get('nt', rng.randint(2, 5))
-    nc = o.get('nc', rng.choice([3, 4, 5, 6, 8, 8, 13, 14, 16]))
+    ties = o.get('ties', False)
+    nc = o.get('nc', rng.choice([13, 14, 15, 16, 16, 17, 20, 24, 32] if ties else [3, 4, 5, 6, 8, 8, 13, 14, 16]))
     ns = o.get('ns', rng.randint(2, 4))
     nspk = o.get('nspk', rng.randint(2, 14))
     if o.get('st'):
@@ -205,7 +229,7 @@ def gen_input(rng, **o):
     wmi = None if wk == 'none' else int_wmi(rng, nc, wk)
     inp = {
         'st': st, 'sc': sc, 'tmpl': templates(rng, nt, ns, nc, style=o.get('style')),
-        'pos': geometry(rng, nc, o.get('geometry')), 'shanks': shanks, 'wmi': wmi, 'ops': names,
+        'pos': geometry(rng, nc, o.get('geometry'), ties=ties), 'shanks': shanks, 'wmi': wmi, 'ops': names,
         'opts': {
             'id_dtype': o.get('id_dtype', rng.choice(['uint32', 'uint32', 'int32', 'int64', 'uint16'])),
             'clu_dtype': o.get('clu_dtype', rng.choice(['uint32', 'int32', 'int64'])),
@@ -217,6 +241,20 @@ def gen_input(rng, **o):
             'write_clusters': o.get('write_clusters', rng.random() < 0.5),
         },
     }
+    # stage 5: bystander files a real sorter / phy leaves in the directory and that TemplateModel must not let change the
+    # storage or the curation bookkeeping (KiloSort2's templates_ind.npy WITH an s = arange rows beside a dense templates.npy;
+    # per-cluster label tables).  Key present only when non-empty (older replays have no such key).
+    extra = o.get('extra')
+    if extra is None:
+        extra = []
+        if rng.random() < o.get('p_extra', 0.0):
+            extra.append(['templates_ind.npy', rng.choice(['float64', 'float64', 'int32', 'uint32', 'int64'])])
+            if rng.random() < 0.4:
+                extra.append(['cluster_KSLabel.tsv', 'text'])
+            if rng.random() < 0.3:
+                extra.append(['cluster_group.tsv', 'text'])
+    if extra:
+        inp['opts']['extra'] = [list(e) for e in extra]
     return inp
 
 
@@ -241,4 +279,15 @@ def to_dataset(inp):
             sem['wmi'] = [[float(v) for v in row] for row in inp['wmi']]
     ds = D.render(sem, None, names=o.get('names', 'ks'), vec2d=o.get('vec2d', False), id_dtype=o.get('id_dtype', 'uint32'),
                   clu_dtype=o.get('clu_dtype', 'int32'), tmpl_dtype=o.get('tmpl_dtype', 'float32'))
+    for name, kind in o.get('extra') or []:
+        if name == 'templates_ind.npy':         # KiloSort2: every row = arange(n_channels); the templates are dense
+            ds['files'][name] = D._spec(kind, [nt, nc], [c for _ in range(nt) for c in range(nc)])
+        elif name == 'cluster_KSLabel.tsv':
+            ds.setdefault('text', {})[name] = 'cluster_id\tKSLabel\n' + ''.join(
+                '%d\t%s\n' % (c, 'good' if c % 2 else 'mua') for c in range(nt))
+        elif name == 'cluster_group.tsv':
+            ds.setdefault('text', {})[name] = 'cluster_id\tgroup\n' + ''.join(
+                '%d\t%s\n' % (c, 'good' if c % 3 else 'noise') for c in sorted(set(sc)))
+        else:
+            raise ValueError(name)
     return ds
